@@ -159,6 +159,10 @@ func c16r2(p *Program, r *Report) {
 			return true
 		})
 		r.Check(nlock == 1, fi.Decl, fi.Name+" updates the ring indexes in one critical section", "a single write-locked section", "the three indexes are updated in "+itoa(nlock)+" separate critical sections: a reader can see them disagree")
+	})
+	// by-address key derivations, wherever the index is written (also in helpers that rely on their callers' lock)
+	p.forEachFunc(false, func(fi *FuncInfo) {
+		info := fi.Pkg.TypesInfo
 		// by-address key derivations
 		ast.Inspect(fi.Decl.Body, func(x ast.Node) bool {
 			switch s := x.(type) {
@@ -232,29 +236,52 @@ func c16r3(p *Program, r *Report) {
 	if fi == nil {
 		return
 	}
-	g := p.GraphOf(fi)
-	info := g.Info
-	facts := g.GuardFacts()
+	info := fi.Pkg.TypesInfo
 	idObj := paramObj(info, fi.Decl.Type, 0)
 	n := 0
-	ast.Inspect(fi.Decl.Body, func(x ast.Node) bool {
-		c, ok := x.(*ast.CallExpr)
-		if !ok || calleeName(info, c) != "builtin.delete" || len(c.Args) != 2 || !p.isField(info, c.Args[0], "ring", "hostIPToUUID") {
-			return true
-		}
-		n++
-		f, _ := facts.Before(c)
-		key := exprStr(c.Args[1])
-		guard := false
-		for atom, v := range f.m {
-			if v && strings.Contains(atom, "hostIPToUUID["+key+"]") && strings.Contains(atom, " == ") && idObj != nil && mentions(atom, idObj.Name()) {
-				guard = true
+	// removeHost and the unexported helpers it hands the id to
+	for _, u := range p.unitsOf(fi) {
+		u := u
+		g := p.GraphOf(u)
+		facts := g.GuardFacts()
+		// the name the removed id has in this unit
+		idName := ""
+		if u == fi && idObj != nil {
+			idName = idObj.Name()
+		} else if idObj != nil {
+			for _, cc := range callsIn(fi.Decl.Body) {
+				if fn := calleeOf(info, cc); fn != nil && p.FuncOf(fn) == u {
+					k := 0
+					for _, pf := range u.Decl.Type.Params.List {
+						for _, pn := range pf.Names {
+							if k < len(cc.Args) && isIdentOf(info, cc.Args[k], idObj) {
+								idName = pn.Name
+							}
+							k++
+						}
+					}
+				}
 			}
 		}
-		r.Check(guard, c, "(*ring).removeHost deletes the address entry only if it maps to the removed id", "guarded by hostIPToUUID[addr] == hostID",
-			"the by-address entry is deleted without checking that it still maps to the host being removed: after a node was replaced on the same address, removing the old host makes the live one unreachable by address (its UP/DOWN events are ignored)")
-		return true
-	})
+		ast.Inspect(u.Decl.Body, func(x ast.Node) bool {
+			c, ok := x.(*ast.CallExpr)
+			if !ok || calleeName(info, c) != "builtin.delete" || len(c.Args) != 2 || !p.isField(info, c.Args[0], "ring", "hostIPToUUID") {
+				return true
+			}
+			n++
+			f, _ := facts.Before(p.stmtOf(c, u))
+			key := exprStr(c.Args[1])
+			guard := false
+			for atom, v := range f.m {
+				if v && strings.Contains(atom, "hostIPToUUID["+key+"]") && strings.Contains(atom, " == ") && idName != "" && mentions(atom, idName) {
+					guard = true
+				}
+			}
+			r.Check(guard, c, "(*ring).removeHost deletes the address entry only if it maps to the removed id", "guarded by hostIPToUUID[addr] == hostID",
+				"the by-address entry is deleted without checking that it still maps to the host being removed: after a node was replaced on the same address, removing the old host makes the live one unreachable by address (its UP/DOWN events are ignored)")
+			return true
+		})
+	}
 	if n == 0 {
 		r.Bad(fi.Decl, "(*ring).removeHost deletes from hostIPToUUID", "removeHost never deletes the by-address entry")
 	}
@@ -415,6 +442,66 @@ func c16r4(p *Program, r *Report) {
 			}
 			return true
 		})
+		if !okDelete {
+			// or: the processed ids are collected in a set, and the final loop over the snapshot removes only the
+			// hosts whose id is known not to be in that set
+			facts := p.GraphOf(fi).GuardFacts()
+			ast.Inspect(fi.Decl.Body, func(n ast.Node) bool {
+				rs, ok := n.(*ast.RangeStmt)
+				if !ok || !isIdentOf(info, rs.X, prevObj) || rs.Key == nil {
+					return true
+				}
+				keyName := exprStr(rs.Key)
+				// _, in := S[key]
+				var set types.Object
+				inName := ""
+				ast.Inspect(rs.Body, func(m ast.Node) bool {
+					if as, isAs := m.(*ast.AssignStmt); isAs && len(as.Lhs) == 2 && len(as.Rhs) == 1 {
+						if ix, isIx := ast.Unparen(as.Rhs[0]).(*ast.IndexExpr); isIx && exprStr(ix.Index) == keyName {
+							if sid, isId := ast.Unparen(ix.X).(*ast.Ident); isId {
+								if _, isMap := info.TypeOf(sid).Underlying().(*types.Map); isMap {
+									set = info.Uses[sid]
+									inName = exprStr(as.Lhs[1])
+								}
+							}
+						}
+					}
+					return true
+				})
+				if set == nil || inName == "" || inName == "_" {
+					return true
+				}
+				// every removal in the loop happens where the id is known not to be in the set
+				nrem, okRem := 0, true
+				for _, c := range callsIn(rs.Body) {
+					if isCallTo(info, c, "(*Session).removeHost") {
+						nrem++
+						f, _ := facts.Before(p.stmtOf(c, fi))
+						if v, known := f.KnownStr(inName); !known || v {
+							okRem = false
+						}
+					}
+				}
+				// the set is filled with the id of each reported host inside a loop that comes before
+				filled := false
+				ast.Inspect(fi.Decl.Body, func(m ast.Node) bool {
+					as, isAs := m.(*ast.AssignStmt)
+					if !isAs || as.Pos() > rs.Pos() {
+						return true
+					}
+					for _, l := range as.Lhs {
+						if ix, isIx := ast.Unparen(l).(*ast.IndexExpr); isIx && isIdentOf(info, ix.X, set) && p.inLoop(as, fi.Decl) && strings.Contains(exprStr(ix.Index), "HostID()") {
+							filled = true
+						}
+					}
+					return true
+				})
+				if nrem > 0 && okRem && filled {
+					okDelete = true
+				}
+				return true
+			})
+		}
 		r.Check(okDelete, fi.Decl, "refreshRing strikes reported hosts off the previous set", "delete(prevHosts, id) for every reported host", "reported hosts are not removed from the snapshot of previous hosts: every host would be removed after each refresh")
 		// a reported host that the host filter now rejects must stay in the leftover set (so that it is removed):
 		// striking it off is allowed only on paths where the filter accepted it
